@@ -45,17 +45,23 @@ def generate(cfgname, module="MC_TransferOpen", workers=8):
     return meta, spath
 
 
-def replay(scripts_path, tag, jobs=16):
-    """Runs every script on the real Worker; returns the trace path."""
-    C.build_harness(("wsim",))
+WORKER = {"mc": "MC_TransferOpen", "bin": "wsim", "sub": "replay", "trace": "Trace_Transfer",
+          "args": ["--jobs", "16", "--workdir", os.path.join(C.WORK, "sim")]}
+CODEC = {"mc": "MC_Codec", "bin": "pure", "sub": "codec", "trace": "Trace_Codec", "args": []}
+WINDOW = {"mc": "MC_Window", "bin": "pure", "sub": "window", "trace": "Trace_Window", "args": []}
+
+
+def replay(scripts_path, tag, layer=WORKER):
+    """Runs every script on the real code; returns the trace path."""
+    C.build_harness(("wsim", "pure"))
     tdir = os.path.join(C.WORK, "traces")
     os.makedirs(tdir, exist_ok=True)
     tpath = os.path.join(tdir, "%s-%d.trace.ndjson" % (tag, os.getpid()))
-    with open(os.path.join(tdir, "wsim-%s.log" % tag), "w") as lf:
-        r = C.run([C.harness_bin("wsim"), "replay", scripts_path, tpath, "--jobs", str(jobs),
-                   "--workdir", os.path.join(C.WORK, "sim")], cwd=C.HARNESS, stdout=lf, stderr=lf, timeout=3600)
+    with open(os.path.join(tdir, "%s-%s.log" % (layer["bin"], tag)), "w") as lf:
+        r = C.run([C.harness_bin(layer["bin"]), layer["sub"], scripts_path, tpath] + layer["args"],
+                  cwd=C.HARNESS, stdout=lf, stderr=lf, timeout=3600)
     if r.returncode != 0 or not os.path.exists(tpath):
-        raise C.ToolError("wsim failed on %s (exit %s)" % (scripts_path, r.returncode))
+        raise C.ToolError("%s failed on %s (exit %s)" % (layer["bin"], scripts_path, r.returncode))
     return tpath
 
 
@@ -105,6 +111,15 @@ def deviation_records(devs, tpath, spath, family):
     scripts = open(spath).read().splitlines() if spath else None
     recs = []
     for (ln, label) in devs:
+        own = json.loads(lines[ln - 1]) if 0 < ln <= len(lines) else {}
+        if "sid" in own and own.get("e") != "cfg":     # vector-style trace: one self-contained line
+            script = json.loads(scripts[own["sid"] - 1]) if scripts else None
+            recs.append({"label": label, "family": family, "cfg": {"sid": own["sid"]}, "event_index": 1,
+                         "event": lines[ln - 1][:300], "script": script if len(lines[ln - 1]) < 5000 else "(large)",
+                         "trace": [own] if len(lines[ln - 1]) < 5000 else []})
+            if len(recs) >= 2000:
+                break
+            continue
         k = ln - 1
         while k > 0 and '"e":"cfg"' not in lines[k]:
             k -= 1
@@ -121,10 +136,10 @@ def deviation_records(devs, tpath, spath, family):
     return recs
 
 
-def family_result(cfgname, select=None, tag=None):
+def family_result(cfgname, select=None, tag=None, layer=WORKER):
     """generate -> replay -> judge for one MC configuration, memoised on the content of
     /repo, the harness and the specification (a changed tree is always re-run)."""
-    meta, spath = generate(cfgname)
+    meta, spath = generate(cfgname, module=layer["mc"])
     tag = tag or cfgname
     if select:
         sel = os.path.join(C.GEN, "%s.%s.ndjson" % (os.path.basename(spath), select.__name__))
@@ -144,9 +159,9 @@ def family_result(cfgname, select=None, tag=None):
         out["memo"] = True
         return out
     t0 = time.time()
-    tpath = replay(spath, tag)
+    tpath = replay(spath, tag, layer)
     t1 = time.time()
-    devs, nev, _ = judge(tpath)
+    devs, nev, _ = judge(tpath, module=layer["trace"], cfg=layer["trace"] + ".cfg")
     out = {"family": tag, "tlc_states": meta["states"], "tlc_transitions": meta["transitions"],
            "scripts": nscripts, "events": nev, "deviations": len(devs),
            "records": deviation_records(devs, tpath, spath, tag),
@@ -159,17 +174,39 @@ def family_result(cfgname, select=None, tag=None):
     return out
 
 
-def model_check(res, cfgname):
+def model_check(res, cfgname, module="MC_TransferOpen"):
     """Design check only (e.g. small-modulus instances whose scripts do not apply to the code)."""
-    meta, _ = generate(cfgname)
+    meta, _ = generate(cfgname, module=module)
     res.states += meta["states"]
     res.transitions += meta["transitions"]
     res.legs.append({"family": cfgname, "tlc_states": meta["states"], "tlc_transitions": meta["transitions"],
                      "design_check_only": True})
 
 
-def run_family(res, cfgname, select=None, tag=None):
-    out = family_result(cfgname, select, tag)
+def run_vectors(res, spath, tag, layer=WORKER):
+    """replay -> judge for a vectors/scripts file that does not come from TLC."""
+    key = C.sha(C.repo_hash(), C.tree_hash(C.HARNESS, (".rs", ".toml")), C.spec_hash(), tag,
+                open(spath, "rb").read())[:20]
+    mpath = os.path.join(C.WORK, "memo", key + ".json")
+    if os.path.exists(mpath) and not os.environ.get("VERIF_NO_MEMO"):
+        out = json.load(open(mpath))
+    else:
+        tpath = replay(spath, tag, layer)
+        devs, nev, _ = judge(tpath, module=layer["trace"], cfg=layer["trace"] + ".cfg")
+        out = {"family": tag, "scripts": sum(1 for _ in open(spath)), "events": nev, "deviations": len(devs),
+               "records": deviation_records(devs, tpath, None, tag)}
+        os.remove(tpath)
+        C.write_json(mpath, out)
+    res.scripts += out["scripts"]
+    res.traces += out["scripts"]
+    res.events += out["events"]
+    res.legs.append({k: v for k, v in out.items() if k != "records"})
+    file_records(res, out["records"])
+    return out
+
+
+def run_family(res, cfgname, select=None, tag=None, layer=WORKER):
+    out = family_result(cfgname, select, tag, layer)
     res.states += out["tlc_states"]
     res.transitions += out["tlc_transitions"]
     res.scripts += out["scripts"]
